@@ -246,8 +246,9 @@ def build(spec: Spec, hashes: list[int] | None = None) -> Built:
             cls = weight_decorator(c.weight)(cls)
         classes.append(cls)
     for i, c in enumerate(spec.classes):
-        if c.abstract:
+        if c.abstract and not c.fields:
             continue
+        # (an abstract class MAY declare a constructor: the fields its subclasses share)
         cls = classes[i]
         names = [fn for fn, _ in c.fields]
         types = [py_type(ft, classes) for _, ft in c.fields]
